@@ -4,6 +4,7 @@ import Nsq.Model.Split
 import Nsq.Model.Relay
 import Nsq.Model.ToFileTrace
 import Nsq.Model.ToFileName
+import Nsq.Model.ToFileDisc
 /-! Driver for engine E8 (tools): one operation per input line, one canonical answer line out.
 
 `tf …`  nsq_to_file router model (stateful: conf / pre / events / tree)
@@ -11,6 +12,7 @@ import Nsq.Model.ToFileName
 `rl …`  relay handlers (nsq_to_nsq, nsq_to_http)
 `tr …`  syscall-trace checker (FIN only after fsync)
 `fn …`  nsq_to_file file names (computeFilenameFormat / currentFilename)
+`td …`  nsq_to_file TopicDiscoverer (stateful: new / upd / tick-err / hup / term)
 -/
 open Nsq Nsq.Line
 
@@ -44,6 +46,7 @@ structure D where
   cfg : Cfg := ⟨false, 0, 0, false, false, 1, true⟩
   st : St := init FS.empty
   nfin : Nat := 0
+  disc : Nsq.Model.ToFileDisc.D := {}
 
 def stateLine (d : D) : String × D :=
   let newFins := (d.st.finished.take (d.st.finished.length - d.nfin)).reverse
@@ -62,7 +65,7 @@ def tfStep (d : D) (ws : List String) : String × D :=
   | ["conf", gz, rs, ri, wd, se, mif, hr] =>
     match b01 gz, rs.toNat?, ri.toInt?, b01 wd, b01 se, mif.toNat?, b01 hr with
     | some gz, some rs, some ri, some wd, some se, some mif, some hr =>
-      ("ok", { cfg := ⟨gz, rs, ri, wd, se, mif, hr⟩, st := init FS.empty, nfin := 0 })
+      ("ok", { d with cfg := ⟨gz, rs, ri, wd, se, mif, hr⟩, st := init FS.empty, nfin := 0 })
     | _, _, _, _, _, _, _ => ("bad-op", d)
   | ["pre", dir, tmpl, rev, data] =>
     match strOfHex tmpl, rev.toNat?, unhex data with
@@ -102,6 +105,7 @@ def stepLine (d : E8.D) (line : String) : String × E8.D :=
   | "tr" :: ws => (Nsq.Model.ToFileTrace.driverLine ws, d)
   | "trm" :: ws => (Nsq.Model.ToFileTrace.driverLineM ws, d)
   | "fn" :: ws => (Nsq.Model.ToFileName.driverLine ws, d)
+  | "td" :: ws => let r := Nsq.Model.ToFileDisc.driverStep d.disc ws; (r.1, { d with disc := r.2 })
   | _ => ("bad-op", d)
 
 partial def loop (h : IO.FS.Stream) (out : IO.FS.Stream) (d : E8.D) : IO Unit := do
